@@ -655,7 +655,7 @@ func (d *driver) phaseCrash() {
 	for n, r := range ures {
 		cc := ccs[useIdx[n]]
 		out := d.decideUse(useExpect{kind: "crash", param: cc.point, mod: cc.m}, useJobs[n], r)
-		if n%211 == 0 {
+		if n%211 == 5 && n < 500 {
 			c.Sample(map[string]any{"what": "crash case", "module": cc.m.Name, "died_at": cc.tag(), "tmp_poisoned": cc.poison, "later_process": out})
 		}
 		os.RemoveAll(cc.dir)
@@ -1152,6 +1152,9 @@ func (d *driver) phaseConc() {
 			os.RemoveAll(dd)
 		}
 		os.RemoveAll(barrier)
+		if m == pick[0] {
+			c.Sample(map[string]any{"what": "concurrent writers", "module": m.Name, "entry_len": len(m.Entry), "writers": writers, "rounds": rounds, "all_participants_finished": complete, "max_rounds_in_which_one_writer_reached_Add": maxWriters})
+		}
 		c.Distinct("conc_modules", fmt.Sprintf("%s(entry=%dB)", m.Name, len(m.Entry)))
 	}
 	if c.Counter("conc_rounds") > 0 && c.Counter("conc_writer_adds") <= c.Counter("conc_rounds") {
